@@ -727,6 +727,108 @@ static void long_case(Ctx& ctx, Kind kind, int L, int M, const std::string& hk, 
     ctx.nontrivial();
 }
 
+// ------------------------------------------------------------------------------------------------ unreduced sample-rate arguments, long inputs
+// resample(x, 48000, 44100, ...) must behave exactly like resample(x, 160, 147, ...): products of a length and an unreduced rate
+// (len * p ~ 1e10) do not fit an int.  For every overload the output length must be p'*ceil(len/q') and the samples must equal
+// those of the call with the reduced ratio (1e-12 relative to max|y|; bit identity is recorded as a note).  The same for a
+// FIRResampler(P, Q) object fed one long frame.
+static void rates_case(Ctx& ctx, int Pu, int Qu, int len) {
+    const int g = std::gcd(Pu, Qu), L = Pu / g, M = Qu / g, mx = std::max(L, M);
+    arr_real x(len);
+    for (int i = 0; i < len; ++i) x[i] = lcg_val(851, (uint64_t)i) + 1e-5 * i;
+    const long want = expected_len(len, Pu, Qu);
+    arr_real hd, hs;
+    try {
+        hd = dsplib::design_multirate_fir(L, M, 8);
+    } catch (const std::exception& e) {
+        ctx.fail("design_multirate_fir", fmt("exception: %s", e.what()), "a coefficient vector", P().kv("what", "throw"));
+        return;
+    }
+    hs = to_arr(sym_dense(2 * mx + 3));
+    struct Ov {
+        const char* name;
+        int mode;
+        int n;
+        double beta;
+        const arr_real* h;
+    };
+    const Ov ovs[] = {{"resample(x,p,q)", 3, 0, 0, nullptr}, {"resample(x,p,q,8,7.0)", 1, 8, 7.0, nullptr}, {"resample(x,p,q,h) designed h", 2, 0, 0, &hd},
+                      {"resample(x,p,q,h) dense h", 2, 0, 0, &hs}};
+    for (const auto& ov : ovs) {
+        const P det = P().kv("overload", ov.name);
+        arr_real yu, yr;
+        std::string eu, er;
+        bool oku, okr;
+        if (ov.mode == 3) {
+            try {
+                yu = dsplib::resample(x, Pu, Qu);
+                oku = true;
+            } catch (const std::exception& e) {
+                eu = e.what();
+                oku = false;
+            }
+            try {
+                yr = dsplib::resample(x, L, M);
+                okr = true;
+            } catch (const std::exception& e) {
+                er = e.what();
+                okr = false;
+            }
+        } else {
+            oku = call_resample(ov.mode, x, Pu, Qu, ov.n, ov.beta, ov.h, yu, eu);
+            okr = call_resample(ov.mode, x, L, M, ov.n, ov.beta, ov.h, yr, er);
+        }
+        if (!oku || !okr) {
+            ctx.fail("resample", fmt("%s: exception: %s", oku ? "reduced ratio" : "unreduced ratio", (oku ? er : eu).c_str()), fmt("%ld samples", want),
+                     P(det).kv("what", "throw").kv("unreduced", oku ? 0 : 1));
+            continue;
+        }
+        if (yu.size() != want || yr.size() != want) {
+            ctx.fail("resample", fmt("%s with len=%d: %d samples for %d/%d, %d samples for %d/%d", ov.name, len, yu.size(), Pu, Qu, yr.size(), L, M),
+                     fmt("p'*ceil(len/q') = %ld for both", want), P(det).kv("what", "size").kv("got", yu.size()).kv("got_reduced", yr.size()));
+            continue;
+        }
+        double ymax = 0;
+        bool fin = true;
+        for (int i = 0; i < yr.size(); ++i) ymax = std::max(ymax, std::fabs(yr[i])), fin = fin && std::isfinite(yu[i]) && std::isfinite(yr[i]);
+        long bad = -1;
+        for (int i = 0; i < yr.size() && bad < 0; ++i)
+            if (!(std::fabs(yu[i] - yr[i]) <= 1e-12 * ymax)) bad = i;
+        if (!fin || bad >= 0)
+            ctx.fail("resample", fin ? fmt("%s: y[%ld] = %.17g for %d/%d but %.17g for %d/%d", ov.name, bad, yu[(int)bad], Pu, Qu, yr[(int)bad], L, M) : "non-finite output",
+                     "the same samples for the unreduced and the reduced ratio", P(det).kv("what", "value").kv("i", bad));
+        ctx.note(bitsame(yu, yr) ? "rates: unreduced call bit-identical to reduced call" : "rates: unreduced call equal within tolerance only");
+    }
+    // a FIRResampler(P, Q) object fed one long frame (multiple of q')
+    {
+        const int flen = (len / M) * M;
+        if (flen > 0) {
+            arr_real in(flen);
+            for (int i = 0; i < flen; ++i) in[i] = x[i];
+            try {
+                arr_real yu = dsplib::FIRResampler(Pu, Qu).process(in), yr = dsplib::FIRResampler(L, M).process(in);
+                const long w = (long)flen * L / M;
+                if (yu.size() != w || yr.size() != w)
+                    ctx.fail("FIRResampler::process", fmt("frame of %d samples: %d samples for FIRResampler(%d,%d), %d for (%d,%d)", flen, yu.size(), Pu, Qu, yr.size(), L, M),
+                             fmt("%ld", w), P().kv("overload", "FIRResampler").kv("what", "size"));
+                else if (!bitsame(yu, yr)) {
+                    double ymax = 0;
+                    for (int i = 0; i < yr.size(); ++i) ymax = std::max(ymax, std::fabs(yr[i]));
+                    long bad = -1;
+                    for (int i = 0; i < yr.size() && bad < 0; ++i)
+                        if (!(std::fabs(yu[i] - yr[i]) <= 1e-12 * ymax)) bad = i;
+                    if (bad >= 0)
+                        ctx.fail("FIRResampler::process", fmt("y[%ld] differs between FIRResampler(%d,%d) and (%d,%d)", bad, Pu, Qu, L, M), "the same samples",
+                                 P().kv("overload", "FIRResampler").kv("what", "value").kv("i", bad));
+                }
+            } catch (const std::exception& e) {
+                ctx.fail("FIRResampler::process", fmt("exception: %s", e.what()), "no exception", P().kv("overload", "FIRResampler").kv("what", "throw"));
+            }
+        }
+    }
+    ctx.nontrivial();
+}
+
 // ------------------------------------------------------------------------------------------------ band limitation of the default designs
 // "approximating the band-limited signal": with the default designs a tone well inside the new band (0.4 of the smaller Nyquist
 // rate) must come through with unit gain and nothing else, a tone half-way between the new and the old Nyquist rate must be
@@ -951,6 +1053,25 @@ int main(int argc, char** argv) {
                 if (p != q) ctx.nontrivial();
             }
         }
+    // ---- unreduced sample-rate arguments with long inputs (both tiers; thorough adds more pairs and lengths)
+    {
+        std::vector<std::array<int, 2>> rates = {{48000, 44100}, {44100, 48000}, {96000, 44100}, {16000, 48000}, {48000, 16000}, {22050, 8000}};
+        std::vector<int> lens = {1000, 44100, 44739, 44740, 88200, 100000};
+        if (T) {
+            for (auto a : {std::array<int, 2>{192000, 44100}, std::array<int, 2>{44100, 192000}, std::array<int, 2>{32000, 48000}, std::array<int, 2>{11025, 48000},
+                           std::array<int, 2>{2000000, 3000000}, std::array<int, 2>{65536, 65535}})
+                rates.push_back(a);
+            for (int l : {1, 22369, 22370, 32768, 65536, 131072, 200000}) lens.push_back(l);
+        }
+        for (auto& r : rates)
+            for (int len : lens) {
+                // 65536/65535 is already reduced (L = 65536): polyphase tables of 2^16 branches, short inputs only
+                if (r[0] == 65536 && len > 1000) continue;
+                if (!ctx.take("resample.rates", P().kv("p", r[0]).kv("q", r[1]).kv("len", len))) continue;
+                rates_case(ctx, r[0], r[1], len);
+            }
+    }
+
     // ---- band limitation of the default designs (M > L: part of the old band must be removed)
     {
         std::vector<std::array<int, 2>> ratios = {{2, 3}, {2, 5}, {3, 7}, {3, 8}, {5, 16}, {160, 441}, {147, 320}, {1, 2}, {1, 3}, {1, 8}};
